@@ -190,10 +190,11 @@ def hvsr_relations(run, h):
                 run.violation("hvsr:azimuthal-is-stack", f"azimuthal result at {a} deg differs from the single-azimuth result", dict(kind="hvsr-rel", a=a))
         if list(azi.azimuths) != az_list:
             run.violation("hvsr:azimuthal-azimuths", f"azimuths {azi.azimuths}", dict(kind="hvsr-rel"))
-        st_all = np.array([s_[0] for s_ in stack])
-        prev = None
-        for p in (0, 10, 25, 50, 75, 90, 100):
-            rd = proc([rec], h.HvsrTraditionalRotDppProcessingSettings(azimuths_in_degrees=az_list, ppth_percentile_for_rotdpp_computation=p, **kw)).amplitude[0]
+        for az_rot in (az_list, [10.0, 30.0, 50.0], [35.0, 80.0], [20.0]):      # also sets that are not symmetric under a -> 180 - a
+          st_all = np.array([proc([rec], h.HvsrTraditionalSingleAzimuthProcessingSettings(azimuth_in_degrees=a, **kw)).amplitude[0] for a in az_rot])
+          prev = None
+          for p in (0, 10, 25, 50, 75, 90, 100):
+            rd = proc([rec], h.HvsrTraditionalRotDppProcessingSettings(azimuths_in_degrees=az_rot, ppth_percentile_for_rotdpp_computation=p, **kw)).amplitude[0]
             if np.any(rd < st_all.min(axis=0) * (1 - 1e-9)) or np.any(rd > st_all.max(axis=0) * (1 + 1e-9)):
                 run.violation("hvsr:rotdpp-bounds", f"RotD{p} leaves the min/max envelope of the single-azimuth curves", dict(kind="hvsr-rel", p=p))
             if prev is not None and np.any(rd < prev * (1 - 1e-12)):
